@@ -94,7 +94,7 @@ def gen(rng, tier, index):
         other = p1_gen.build(p1_gen.readout_spec(rng, None, "small"))
         sc["bystander"] = {"wire": (other[: rng.randint(1, len(other))] + p1_gen.noise(rng, 80)[0]).hex()}
     if rng.random() < 0.08 and cuts.get("m") != "whole":
-        sc["cuts"] = dict(cuts, **{"as": "bytearray"})
+        sc["cuts"] = dict(cuts, **{"as": rng.choice(["bytearray", "reused_bytearray"])})
     yield sc
 
 
@@ -136,6 +136,8 @@ def execute(sc):
             viol.append({"sig": sig, "detail": detail})
 
     big = "stream>8k" if len(wire) > 8191 else "stream<=8k"
+    if fed.changed_later is not None:
+        add("R", "returned-list-changed-by-later-call", "the list returned by read() call #%d held %d readouts when it was returned and %d after later calls: what a call returned has to stay what it was (exactly once, in order, for a caller that keeps the lists)" % fed.changed_later)
     if fed.error is not None:
         idx, ex = fed.error
         add("exception", f"{type(ex).__name__} {reader_rig.exc_site(ex)}", f"read() call #{idx} raised {ex!r} on a clean stream")
@@ -206,6 +208,8 @@ def summarise(sc):
 
 
 def candidates(sc):
+    for simpler in fragment.simpler(sc["cuts"]):
+        yield dict(copy.deepcopy(sc), cuts=simpler)
     if sc.get("tail"):
         yield dict(copy.deepcopy(sc), tail=None)
     if sc.get("bystander"):
@@ -215,9 +219,9 @@ def candidates(sc):
             yield dict(copy.deepcopy(sc), readouts=red)
     if sc["cuts"]["m"] == "list":
         for red in shrink.list_reductions(sc["cuts"]["at"]):
-            yield dict(copy.deepcopy(sc), cuts={"m": "list", "at": red} if red else {"m": "whole"})
+            yield dict(copy.deepcopy(sc), cuts=fragment.keep(sc["cuts"], {"m": "list", "at": red} if red else {"m": "whole"}))
     elif sc["cuts"]["m"] == "fixed":
-        yield dict(copy.deepcopy(sc), cuts={"m": "whole"})
+        yield dict(copy.deepcopy(sc), cuts=fragment.keep(sc["cuts"], {"m": "whole"}))
     # make all readouts the same simple one, then shrink its lines
     first = sc["readouts"][0]
     if any(r != first for r in sc["readouts"]):
